@@ -270,62 +270,13 @@ move=> tV; split.
 - by rewrite /normalise cvecZ -scalemxAr unvecK Lv scaler0.
 Qed.
 
-(* _steadystate_svd: the operator is flagged Hermitian before tr() is taken,
-   so the divisor is re (tr V) = (tr V + conj (tr V)) / 2 *)
-Definition re (z : R) : R := 2%:R^-1 * (z + conj z).
-Definition svd_normalise (X : 'M[R]_n) : 'M[R]_n := (re (\tr X))^-1 *: X.
-
-Lemma re_real z : (2%:R : R) != 0 -> (re z == z) = (conj z == z).
-Proof.
-move=> two; rewrite /re -(inj_eq (mulfI two)) mulrA mulfV // mul1r.
-by rewrite mulr_natl mulr2n (inj_eq (addrI z)).
-Qed.
-
-Lemma svd_trace_iff :
-  (2%:R : R) != 0 -> re (\tr V) != 0 ->
-  (\tr (svd_normalise V) == 1) = (conj (\tr V) == \tr V).
-Proof.
-move=> two r0; rewrite /svd_normalise mxtraceZ -(re_real _ two).
-rewrite -(inj_eq (mulfI r0)) mulrA mulfV // mul1r mulr1.
-by rewrite eq_sym.
-Qed.
-
-Lemma svd_result_real_phase :
-  (2%:R : R) != 0 -> \tr V != 0 -> conj (\tr V) = \tr V ->
-  [/\ dag (svd_normalise V) = svd_normalise V, \tr (svd_normalise V) = 1
-    & L *m cvec (svd_normalise V) = 0].
-Proof.
-move=> two tV real.
-have E : svd_normalise V = normalise V.
-  by rewrite /svd_normalise /normalise; move/eqP: real; rewrite -(re_real _ two) => /eqP->.
-by rewrite E; apply: eigen_result.
-Qed.
-
-(* for every null vector whose trace is not real the svd result is neither
-   normalised nor Hermitian *)
-Lemma svd_result_complex_phase :
-  (2%:R : R) != 0 -> re (\tr V) != 0 -> conj (\tr V) != \tr V ->
-  \tr (svd_normalise V) != 1 /\ dag (svd_normalise V) != svd_normalise V.
-Proof.
-move=> two r0 cplx.
-have nt : \tr (svd_normalise V) != 1 by rewrite svd_trace_iff // .
-split=> //; apply: contra nt => /eqP H.
-have tV : \tr V != 0.
-  apply: contraNneq r0 => z; by rewrite /re z rmorph0 addr0 mulr0.
-have [d HV Ht] := null_dag tV.
-(* dag (a V) = conj a d V = a V  with V != 0 gives conj a * d = a, where a is
-   real by construction, hence d = 1 and conj (tr V) = tr V *)
-have V0 : V != 0 by apply: contraNneq tV => ->; rewrite mxtrace0.
-have rr : conj (re (\tr V)) = re (\tr V).
-  by rewrite /re rmorphM fmorphV conj_nat rmorphD conjK addrC.
-move: H; rewrite /svd_normalise dag_scale fmorphV rr HV scalerA => H.
-have : ((re (\tr V))^-1 * d - (re (\tr V))^-1) *: V = 0.
-  by rewrite scalerBl H subrr.
-move/eqP; rewrite scaler_eq0 (negbTE V0) orbF subr_eq0 => /eqP Hd.
-have d1 : d = 1.
-  by apply: (mulfI (invr_neq0 r0)); rewrite Hd mulr1.
-by move: cplx; rewrite Ht d1 mul1r eqxx.
-Qed.
+(* _steadystate_svd (after the repair): rho / rho.tr() on the unflagged
+   operator, i.e. the same normalisation as _steadystate_eigen *)
+Lemma svd_result :
+  \tr V != 0 ->
+  [/\ dag (normalise V) = normalise V, \tr (normalise V) = 1
+    & L *m cvec (normalise V) = 0].
+Proof. exact: eigen_result. Qed.
 
 (* _steadystate_power: rho + rho.dag(), / tr  -- Hermitian for every phase *)
 Definition power_normalise (X : 'M[R]_n) : 'M[R]_n := normalise (X + dag X).
